@@ -80,6 +80,31 @@ def densified_in_station_order(ck, rid, f, fl, value, node, mapping, station_src
                     ck.violation(rid, f, how[1], f"the matrix that is written starts out as `{src(how[1], 70)}`, i.e. from {stale[0]}: a station the new "
                                  "schedule omits keeps the pilot an earlier schedule planned for it instead of 0", sink="densify-row")
                     return False
+    # recognised and wrong: rows of the matrix are filled (by mask, slice or fancy index) from the mapping's values in the mapping's own
+    # order - `m[mask] = np.array(list(mapping.values()))` puts the k-th *listed* row on the k-th *selected* station
+    if isinstance(v0, ast.Name):
+        names, e_, nd_ = {v0.id}, v0, node
+        for _ in range(6):              # the array may travel through result temporaries of an inlined helper
+            ds = fl.defs_at(nd_, e_.id)
+            if len(ds) != 1:
+                break
+            d_ = next(iter(ds))
+            how_ = fl.def_how(d_, e_.id)
+            if how_[0] == "assign" and isinstance(how_[1], ast.Name):
+                e_, nd_ = how_[1], d_
+                names.add(e_.id)
+            else:
+                break
+        for nd in fl.cfg.nodes:
+            if nd.kind == "stmt" and isinstance(nd.stmt, ast.Assign) and isinstance(nd.stmt.targets[0], ast.Subscript) and dotted(nd.stmt.targets[0].value) in names:
+                xv = fl.expand(nd.stmt.value, nd)
+                pos = [x for x in ast.walk(xv) if isinstance(x, ast.Call) and call_name(x) in ("values", "items") and isinstance(x.func, ast.Attribute)
+                       and canon(x.func.value) == mapping]
+                # a row taken by key for the station being filled (`m[row] = mapping[station]`) is fine; the mapping's value *sequence* is not
+                if pos and not isinstance(fl.expand(nd.stmt.targets[0].slice, nd), ast.Constant):
+                    ck.violation(rid, f, nd.stmt, f"rows of the matrix are filled from `{src(pos[0], 40)}`, i.e. in the order of the mapping's entries, not by station: "
+                                 "a schedule listing the same stations in another order is applied to / checked for the wrong stations", sink="densify-order")
+                    return False
     elems = collect_list(fl, value, node)
     if elems is None:
         raise AnalysisError(f"{f.qual}: construction of the schedule matrix not recognised: {src(value)}")
